@@ -196,6 +196,8 @@ pub fn addr(i: usize) -> Address {
 }
 pub fn idx(a: &Address) -> usize {
     match a {
+        // addresses outside the simulated nodes (segment 6 set) go nowhere
+        Address::Udp(SocketAddr::V6(s)) if s.ip().segments()[6] != 0 => usize::MAX,
         Address::Udp(SocketAddr::V6(s)) => (s.ip().segments()[7] as usize).wrapping_sub(1) % MAX_NODES,
         _ => 0,
     }
@@ -237,6 +239,9 @@ impl NetworkSend for Tx {
         let id = n.next_id;
         n.next_id += 1;
         let d = Dgram { id, seq: next_seq(), src: self.1, dst: idx(&a), data: data.to_vec(), t_ms: t_call };
+        if d.dst == usize::MAX {
+            return Ok(());
+        }
         n.tap.push(d.clone());
         n.wire.push_back(d);
         Ok(())
